@@ -1778,8 +1778,8 @@ def argwrites_check(ctx):
         solve_tridiagonal_matrix(a, r)
         n_calls += 1
         for nm, x, x0 in (('a_matrix', a, a0), ('r', r, r0)):
-            if x.tobytes() != x0.tobytes() and ('solve_tridiagonal_matrix', nm) not in listed:
-                ctx.violation(f'solve_tridiagonal_matrix changed its argument `{nm}` in place (not in the argument-write table)',
+            if x.tobytes() != x0.tobytes():
+                ctx.violation(f'solve_tridiagonal_matrix changed its argument `{nm}` in place (Spec/ArgWrites excuses no write of this function)',
                               {'a_matrix': a0.tolist(), 'r': r0.tolist(), 'after': x.tolist()}, clause='inputs unchanged')
         nc = rng.randint(2, 10)
         sp = np.array([rng.uniform(0.5, 0.999) for _ in range(nc)])
@@ -1788,8 +1788,8 @@ def argwrites_check(ctx):
         homog_basket_loss_dbn(sp, np.full(nc, 0.4), bv, 20)
         n_calls += 1
         for nm, x, x0 in (('survival_probs', sp, sp0), ('beta_vector', bv, bv0)):
-            if x.tobytes() != x0.tobytes() and ('homog_basket_loss_dbn', nm) not in listed:
-                ctx.violation(f'homog_basket_loss_dbn changed its argument `{nm}` in place (not in the argument-write table)',
+            if x.tobytes() != x0.tobytes():
+                ctx.violation(f'homog_basket_loss_dbn changed its argument `{nm}` in place (Spec/ArgWrites excuses no write of this function)',
                               {'survival_probs': sp0.tolist(), 'beta_vector': bv0.tolist(), 'after': x.tolist()}, clause='inputs unchanged')
         w = np.array([rng.uniform(0.5, 3.0) for _ in range(nc)])
         w0 = w.copy()
